@@ -575,6 +575,7 @@ type StopResult struct {
 	SecondStop    bool   // ... and Stop completed again
 	DuringRefused bool   // while Stop was waiting for connections: a new WebSocket connection was refused
 	DuringHTTP    int    // ... and an HTTP GET was answered with this status
+	FreshCache    bool   // after the restart a subscribe to a resource cached before the stop was fetched anew (get request)
 }
 
 // StopNow injects Stop (kind "stop") or the loss of the messaging connection (kind "mqloss") with whatever
@@ -585,6 +586,15 @@ func (w *World) StopNow(kind string) StopResult {
 	for _, c := range w.Clients {
 		if !c.closed {
 			live++
+		}
+	}
+	// a resource that is loaded in the cache right now (for the fresh-cache probe after the restart)
+	cachedName := ""
+	for _, en := range w.Serv.VerifCache().VerifEntries() {
+		for _, rs := range en.Resources {
+			if rs.Query == "" && rs.State >= 3 && !strings.Contains(en.Name, "long") {
+				cachedName = en.Name
+			}
 		}
 	}
 	stopCh := w.Serv.StopChannel()
@@ -711,10 +721,36 @@ func (w *World) StopNow(kind string) StopResult {
 				}
 				redial <- ws3
 			}()
+			r.FreshCache = true
 			select {
 			case ws3 := <-redial:
 				if ws3 != nil {
 					r.Restarted = true
+					if cachedName != "" {
+						// the restarted service must fetch the resource anew: nothing cached before the stop may be served
+						go func() {
+							for {
+								if _, _, err := ws3.ReadMessage(); err != nil {
+									return
+								}
+							}
+						}()
+						ws3.WriteMessage(websocket.TextMessage, []byte(`{"id":1,"method":"subscribe.`+cachedName+`"}`))
+						got := false
+						for i := 0; i < 300 && !got; i++ {
+							for _, q := range w.MQ.Pending() {
+								switch q.Subject {
+								case "access." + cachedName:
+									w.Answer(q, []byte(`{"result":{"get":true}}`), nil)
+								case "get." + cachedName:
+									got = true
+									w.Answer(q, []byte(`{"error":{"code":"system.notFound","message":"Not found"}}`), nil)
+								}
+							}
+							time.Sleep(5 * time.Millisecond)
+						}
+						r.FreshCache = got
+					}
 					ws3.Close()
 				}
 			case <-time.After(2 * time.Second):
@@ -728,7 +764,7 @@ func (w *World) StopNow(kind string) StopResult {
 			}
 		}
 	}
-	w.rec(Ev{Kind: "stop", Subj: kind, Text: fmt.Sprintf("returned=%t cause=%t elapsed_ok=%t clients_closed=%t refused=%t http=%d restarted=%t second_stop=%t during_refused=%t during_http=%d",
-		r.Returned, r.Cause == cause, r.ElapsedMS < 11000, r.ClientsClosed, r.ConnRefused, r.HTTPStatus, r.Restarted, r.SecondStop, r.DuringRefused, r.DuringHTTP)})
+	w.rec(Ev{Kind: "stop", Subj: kind, Text: fmt.Sprintf("returned=%t cause=%t elapsed_ok=%t clients_closed=%t refused=%t http=%d restarted=%t second_stop=%t during_refused=%t during_http=%d fresh_cache=%t",
+		r.Returned, r.Cause == cause, r.ElapsedMS < 11000, r.ClientsClosed, r.ConnRefused, r.HTTPStatus, r.Restarted, r.SecondStop, r.DuringRefused, r.DuringHTTP, r.FreshCache)})
 	return r
 }
